@@ -65,8 +65,78 @@ func runJob(j Job) *Stats {
 		return dfsAll(j.Cfg, j.Depth, j.First, j.Mons)
 	case "types":
 		return typesPass(j.Cfg, j.Types, j.Mons)
+	case "scale":
+		return scalePass(j.Cfg, j.Mons)
 	}
 	return &Stats{Cap: "unknown mode"}
+}
+
+// scalePass: long deterministic histories under a large maxInFlight, all monitors on.
+func scalePass(cfg Config, mons map[string]bool) *Stats {
+	st := &Stats{Config: cfg.String(), Mode: "scale", Exhaustive: true}
+	sigSeen := map[string]bool{}
+	mk := func(name string, build func() []Op) {
+		hist := build()
+		in := replay(cfg, hist)
+		st.Executions++
+		st.States++
+		st.Transitions += int64(len(hist))
+		for _, v := range selected(in.viol, mons) {
+			sig := v.Mon + "/" + v.Sub
+			if !sigSeen[sig] {
+				sigSeen[sig] = true
+				short := hist
+				if len(short) > 12 {
+					short = append(append([]Op{}, hist[:4]...), hist[len(hist)-4:]...)
+				}
+				st.Viol = append(st.Viol, FoundViolation{Mon: v.Mon, Sub: v.Sub, What: name + ": " + v.What, Config: cfg, History: short})
+			}
+		}
+		st.Samples = append(st.Samples, fmt.Sprintf("%s (%d ops) => %d callbacks", name, len(hist), in.callbacks))
+	}
+	n := 1500
+	push := func(i int, kind string) Op { return Op{Code: opPush, Seq: cfg.Base + uint32(i), Kind: kind} }
+	// (a) n never-completing events, time passes, ONE Maintain must flush them all; then Close
+	mk("n incomplete events; tick; Maintain; Close", func() []Op {
+		var h []Op
+		for i := 0; i < n; i++ {
+			h = append(h, push(i, "mid"))
+		}
+		h = append(h, Op{Code: opTick, Delta: 5}, Op{Code: opMaintain}, Op{Code: opClose})
+		return h
+	})
+	// (b) n events, every third complete, gaps of 1 every 7th, flushed by Close
+	mk("n events with gaps; Close", func() []Op {
+		var h []Op
+		for i := 0; i < n; i++ {
+			if i%7 == 3 {
+				continue
+			}
+			k := "mid"
+			if i%3 == 0 {
+				k = "fin"
+			}
+			h = append(h, push(i, k))
+		}
+		h = append(h, Op{Code: opClose})
+		return h
+	})
+	// (c) interleaved two-record events arriving in reverse order inside blocks of 40, then a push after the timeout
+	mk("reversed blocks; tick; push; Close", func() []Op {
+		var h []Op
+		for b := 0; b < n/40; b++ {
+			for i := 39; i >= 0; i-- {
+				h = append(h, push(b*40+i, "mid"))
+			}
+			for i := 0; i < 40; i += 2 {
+				h = append(h, push(b*40+i, "path"))
+			}
+		}
+		h = append(h, Op{Code: opTick, Delta: 5}, push(n+10, "mid"), Op{Code: opMaintain}, Op{Code: opClose})
+		return h
+	})
+	st.Outcomes = 3
+	return st
 }
 
 // typesPass pushes each record type as the first record of an event and lets
@@ -116,7 +186,7 @@ func buildJobs(prop, tier string) []interface{} {
 	maxStates := int64(1_000_000)
 	if thorough {
 		maxIn = []int{0, 1, 2, 3, 4}
-		bases = []uint32{5, 0, 1<<32 - 3, 1<<24 - 2, 1<<31 - 2}
+		bases = []uint32{5, 0, 1<<32 - 3, 1<<24 - 2, 1<<31 - 2, 1<<31 - 5, 1<<16 - 2}
 		offs = []uint32{0, 1, 2, 4, 7}
 		kinds = []string{"mid", "midRaw", "fin", "user", "eoe", "nil"}
 		maxStates = 20_000_000
@@ -131,7 +201,17 @@ func buildJobs(prop, tier string) []interface{} {
 		// time interacts with ordering / grouping / loss accounting too (expiry evicts)
 		timeouts = []int64{farTimeout, 2}
 	}
+	edgeBases := []uint32{1<<31 - 2, 1<<24 - 2, 1<<31 - 5, 1<<16 - 2} // windows straddling 2^31, 2^24, 2^16
 	for _, to := range timeouts {
+		if !thorough && to == farTimeout {
+			// quick: the arithmetic edges with the smaller configurations
+			for _, m := range []int{1, 2} {
+				for _, b := range edgeBases {
+					cfg := Config{MaxInFlight: m, TimeoutTicks: to, Base: b, Offsets: []uint32{0, 1, 3, 4}, Kinds: []string{"mid", "fin", "eoe"}, MaxRecs: 2, PostClose: 1}
+					jobs = append(jobs, Job{Mode: "bfs", Cfg: cfg, MaxStates: maxStates})
+				}
+			}
+		}
 		for _, m := range maxIn {
 			for _, b := range bases {
 				var tk []int
@@ -169,6 +249,15 @@ func buildJobs(prop, tier string) []interface{} {
 		cfg := Config{MaxInFlight: m, TimeoutTicks: farTimeout, Base: 1<<32 - 3, Offsets: []uint32{0, 1, 3}, Kinds: k, MaxRecs: 3, PostClose: 2}
 		jobs = append(jobs, Job{Mode: "bfs", Cfg: cfg, MaxStates: maxStates})
 	}
+	// records of one sequence that do NOT share a timestamp (the grouping key is the sequence)
+	for _, m := range []int{1, 2} {
+		cfg := Config{MaxInFlight: m, TimeoutTicks: farTimeout, Base: 5, Offsets: []uint32{0, 1, 3}, Kinds: []string{"mid", "midTs", "midRawTs", "fin", "finTs", "eoe"}, MaxRecs: 2, PostClose: 1}
+		jobs = append(jobs, Job{Mode: "bfs", Cfg: cfg, MaxStates: maxStates})
+	}
+	// scale: thresholds inside the implementation (batch limits, table sizes) are far above the
+	// small configurations; a few long deterministic histories with a large maxInFlight
+	jobs = append(jobs, Job{Mode: "scale", Cfg: Config{MaxInFlight: 3000, TimeoutTicks: 2, Base: 1<<32 - 800, Offsets: []uint32{0}, Kinds: []string{"mid"}, MaxRecs: 3, PostClose: 1}})
+	jobs = append(jobs, Job{Mode: "scale", Cfg: Config{MaxInFlight: 1000, TimeoutTicks: farTimeout, Base: 1<<31 - 900, Offsets: []uint32{0}, Kinds: []string{"mid"}, MaxRecs: 3, PostClose: 1}})
 	// a Stream that re-enters the Reassembler from its callback (C01 only: grouping / exactly once)
 	if prop == "C01" {
 		for _, m := range []int{1, 2, 3} {
